@@ -129,6 +129,9 @@ def fam_link():
                     call("RequireParseableURLs", b=False)])
     recipes.append([call("ZeroValue"), call("RequireNoFollowOnLinks", b=True), call("AddTargetBlankToFullyQualifiedLinks", b=True),
                     AA(["href", "rel", "target"], ["a", "area", "link"]), call("AllowURLSchemes", schemes=["http", "https"])])
+    # target is admitted, rel is not: whatever rel the output carries is the sanitiser's own
+    recipes.append([call("NewPolicy"), AA(["href", "target"], ["a", "area", "link"]), call("AllowURLSchemes", schemes=["http", "https"]),
+                    call("AllowRelativeURLs", b=True), call("RequireNoFollowOnLinks", b=True), call("AddTargetBlankToFullyQualifiedLinks", b=True)])
     alpha = (av("href", ["http://e.com/x", "/rel", "javascript:x", "http://e.com/%zz", "/p?a\u00a0#", " //evil.example/x", "\u00a0//evil.example/y", "http://e.com/?a=1&amp;amp;b=2"]) +
              av("rel", ["nofollow", "NOFOLLOW", "xnofollowx", "tag noopener", "notnoopenerx noreferrer", ""]) +
              av("target", ["_blank", "_top"]))
